@@ -16,8 +16,8 @@ from vt.oracles import rexmatch as O
 
 ID = 'C03'
 TIERS = {
-    'quick': dict(shards=16, cases=420, watchdog_s=900),
-    'thorough': dict(shards=16, cases=26000, big=2, watchdog_s=6000),
+    'quick': dict(shards=16, cases=2000, watchdog_s=900),
+    'thorough': dict(shards=16, cases=80000, big=2, watchdog_s=6000),
 }
 RULE = ('cases = (multiset of 1-60 hostile unicode strings over a 1-8 symbol alphabet, input form '
         'list/dict/Series/list-of-Series, option set, dialect, Size setting, seed); directed fill of '
